@@ -322,6 +322,58 @@ def run (E : Env) (s : Sys) : List Op → Sys
   | [] => s
   | op :: ops => run E (step E s op).sys ops
 
+/-! ### the undo record of one object (`FileStorage._transactionalUndoRecord`)
+
+    Only what C10 needs: which data ends up in the undo record and when the resolver runs.
+    `pre` = the revision before the one being undone, `ct` = the current revision.
+    * current revision IS the one being undone (`tipos == pos`), or its data is the undone data
+      (`cdataptr == pos` / `data_to_be_undone == current_data`): copy `pre` (a back pointer);
+    * otherwise no `pre`: UndoError ("Can't undo an add transaction followed by conflicting …");
+    * otherwise `tryToResolveConflict(oid, ctid, tid, pre_data, current_data)`; a ConflictError
+      becomes UndoError. -/
+
+/-- data of the revision of `o` immediately before the (newest) one with tid `undone` -/
+def prevRecord : Hist → Oid → Tid → Option Record
+  | [], _, _ => none
+  | t :: older, o, undone =>
+    if t.tid = undone ∧ t.has o then
+      (match currentTid older o with
+       | some p => loadSerialMapping older o p
+       | none => none)
+    else prevRecord older o undone
+
+inductive UndoOut where
+  | copy (data : Record)            -- back pointer to `pre`, no resolver
+  | uncreate                        -- the object's creation is undone
+  | merged (data : Record)          -- resolver output
+  | undoError
+deriving DecidableEq, Repr
+
+structure UndoRecRes where
+  out : UndoOut
+  cache : List ClassId
+  call : Option Call
+
+def undoRecord (E : Env) (k : Kind) (hist base : Hist) (cache : List ClassId) (oid : Oid)
+    (undone : Tid) : UndoRecRes :=
+  let v := viewOf k hist base
+  match currentTid v oid, loadSerialMapping v oid undone with
+  | some ct, some undoneData =>
+    let pre := prevRecord v oid undone
+    let cur := loadSerialMapping v oid ct
+    if ct = undone ∨ cur = some undoneData then
+      match pre with
+      | some d => { out := .copy d, cache := cache, call := none }
+      | none => { out := .uncreate, cache := cache, call := none }
+    else
+      match pre, cur with
+      | some preData, some curData =>
+        let r := undoResolve E (loadSerialK k hist base) cache oid ct undone preData curData
+        { out := (match r.out with | .ok d => .merged d | .error _ => .undoError),
+          cache := r.cache, call := r.call }
+      | _, _ => { out := .undoError, cache := cache, call := none }
+  | _, _ => { out := .undoError, cache := cache, call := none }
+
 /-! ### specification predicates (C03 / C10 are stated with these) -/
 
 /-- `r.data` is the class's three-way merge: the resolver's result on (state at the writer's base
